@@ -908,6 +908,21 @@ fn c13(spec: &RunSpec) -> ! {
         (-1, None)
     };
 
+    // a sibling registration of the *same* open file description (dup of the write end - the
+    // documented try_clone recipe), for another signal, made before the registration under test
+    let mut sibling: Option<SigId> = None;
+    if second && entry < 2 && ending == 0 {
+        let d = unsafe { libc::dup(wr) };
+        match signal_hook::low_level::pipe::register_raw(other_sig, d) {
+            Ok(sid) => sibling = Some(sid),
+            Err(e) => sim::report("C13", "registration-failed", &format!("registration of a duplicate of the descriptor failed: {}", e), true),
+        }
+        if kind == FdKind::Dgram {
+            // the send-ability probe of that registration left an empty datagram
+            let (u, b) = if fill == 0 { read_all(kind, rd) } else { (0, 0) };
+            let _ = (u, b);
+        }
+    }
     // ---- registration (or rejected registration)
     let target_sig = match ending {
         1 => libc::SIGKILL,
@@ -1021,6 +1036,14 @@ fn c13(spec: &RunSpec) -> ! {
         Ok(Err(e)) => sim::violation("C13", "registration-failed", &format!("registration of a valid descriptor failed: {}", e)),
         Err(_) => sim::violation("C13", "registration-panicked", &format!("registration of a valid descriptor panicked: {}", panic_msg())),
     };
+    // the sibling registration of the same open file description (made first, see above) goes
+    // away now: the surviving registration must not be affected (file status flags are shared
+    // between duplicates of a descriptor)
+    if let Some(sid) = sibling.take() {
+        if !signal_hook::low_level::unregister(sid) {
+            sim::report("C13", "unregister-failed", "unregister of the sibling self-pipe action returned false", true);
+        }
+    }
     // the probe datagram / flags
     if entry < 2 && kind == FdKind::Pipe {
         let fl = unsafe { libc::fcntl(wr, libc::F_GETFL, 0) };
